@@ -4,6 +4,8 @@ import (
 	"errors"
 	"fmt"
 
+	"github.com/bitcoin-sv/block-headers-service/config"
+	"github.com/bitcoin-sv/block-headers-service/internal/chaincfg"
 	"github.com/bitcoin-sv/block-headers-service/internal/chaincfg/chainhash"
 	"github.com/bitcoin-sv/block-headers-service/verifharness/deco"
 	"github.com/bitcoin-sv/block-headers-service/verifharness/ev"
@@ -158,3 +160,49 @@ func (e *env) structural() bool {
 }
 
 var _ = ev.Spec{}
+
+// otherNetworks: the same questions on stores of the other networks the service can be configured for (their genesis
+// blocks differ from main net's): in particular a getheaders whose stop hash is THAT network's genesis block.
+func otherNetworks(r *ev.Run) {
+	nets := []struct {
+		name string
+		typ  config.NetworkType
+		p    *chaincfg.Params
+	}{{"testnet", config.TestNet, &chaincfg.TestNet3Params}, {"regtest", config.RegTestNet, &chaincfg.RegressionNetParams}, {"simnet", config.SimulationNet, &chaincfg.SimNetParams}}
+	for _, nt := range nets {
+		nt := nt
+		caseID := "net/" + nt.name
+		r.Do(caseID, func() {
+			st, err := rig.New(rig.Options{Dir: r.Scratch, Name: "c13-" + nt.name + ".db", NoHTTP: true, Config: func(c *config.AppConfig) { c.P2P.ChainNetType = nt.typ }})
+			if err != nil {
+				r.Violate("harness|rig", err.Error(), caseID, nil)
+				return
+			}
+			defer st.Destroy()
+			g := nt.p.GenesisBlock.Header
+			gh := refmodel.Hdr{Version: 1, Prev: refmodel.Hash(g.PrevBlock), Merkle: refmodel.Hash(g.MerkleRoot), Time: uint32(g.Timestamp.Unix()), Bits: g.Bits, Nonce: g.Nonce}
+			if stored := st.Svc.Headers.GetTip(); stored == nil || refmodel.Hash(stored.Hash) != gh.HashOf() {
+				r.Count("other_network_stores_skipped_genesis_differs", 1) // the store's genesis row is not what this harness derives: nothing to judge
+				return
+			}
+			m := refmodel.New(gh)
+			e := &env{r: r, st: st, m: m, caseID: caseID, desc: map[string]any{"network": nt.name}}
+			rng := r.Rand(caseID)
+			hist := gen.Random(rng, gh, gen.Opts{N: 40 + rng.Intn(40), PFork: 0.2, PUnknown: 0.03, Classes: "MH"})
+			if !e.ingest(hist) {
+				return
+			}
+			e.locator()
+			// stop = this network's genesis, from several starting points
+			for _, loc := range [][]refmodel.Hash{{m.Genesis.Hash}, {m.Best().Hash}, {m.LongestPath()[len(m.LongestPath())/2].Hash}} {
+				e.getHeaders(query{loc: loc, stop: m.Genesis.Hash, locClass: "L", stopClass: "genesis"})
+			}
+			for k := 0; k < 60 && !e.failed; k++ {
+				e.getHeaders(e.genQuery(rng))
+			}
+			if !e.failed {
+				r.Count("stores_of_other_networks_questioned", 1)
+			}
+		})
+	}
+}
